@@ -6,6 +6,8 @@
 
 package sumdb
 
+import "golang.org/x/mod/sumdb/tlog"
+
 func verifYield(point string) {}
 
-func verifInstall(c *Client, oldN, newN int64) {}
+func verifInstall(c *Client, old, new tlog.Tree) {}
